@@ -85,4 +85,25 @@ def reuseStream (dbs : List Repo) : List Cand :=
   iterSort highestSorter ((dbs.filter isLivefs).map repoStream) ++
     iterSort highestSorter ((dbs.filter fun r => !isLivefs r).map repoStream)
 
+/-! ## the resolver's memory of insoluble atoms (`merge_plan._viable`)
+
+One lookup of an atom that the plan does not satisfy yet: `cands` is what *all* repositories offer for it, `limited` says that
+this lookup was restricted to the installed repositories (`dbs == self.livefs_dbs`, the retry `check_for_cycles` forces on a
+build-time cycle).  `if not limit_to_vdb and not matches: self.insoluble.add(atom)`.  Whatever is in `insoluble` prunes candidates
+of every later choice point (`choices.reduce_atoms(self.insoluble)`), for every later target resolved on the same resolver. -/
+
+structure Lookup where
+  atom : Nat
+  cands : List Cand
+  limited : Bool
+
+/-- the `matches` of the lookup -/
+def lookupMatches (l : Lookup) : List Cand := if l.limited then l.cands.filter (·.livefs) else l.cands
+
+def markInsoluble (ins : List Nat) (l : Lookup) : List Nat :=
+  if !l.limited && (lookupMatches l).isEmpty then l.atom :: ins else ins
+
+/-- the insoluble set after a history of lookups on one resolver -/
+def insolubleAfter (ls : List Lookup) : List Nat := ls.foldl markInsoluble []
+
 end Pkgcore.C16
